@@ -216,7 +216,7 @@ func (c *Collection) Delete(id string, opts ...WriteOption) (proto.Message, erro
 		verifAt("del.removed", &c.mu, id)
 		c.bus.Send(context.TODO(), &CollectionChange{
 			Id:         id,
-			ChangeTime: c.clock.Now(),
+			ChangeTime: args.updateTime(c.clock),
 			ChangeType: types.ChangeType_REMOVE,
 			OldValue:   oldVal.body,
 		})
